@@ -1,0 +1,46 @@
+//go:build verif
+
+package scan
+
+import (
+	"context"
+	"math/big"
+)
+
+// Read-only accessors for the verification harness (built only with -tags verif).
+
+// VerifCyclicGroups returns the rows {P, G, N} of the cyclic group table.
+func VerifCyclicGroups() [][3]int64 {
+	rows := make([][3]int64, 0, len(cyclicGroups))
+	for _, g := range cyclicGroups {
+		rows = append(rows, [3]int64{g.P, g.G, g.N})
+	}
+	return rows
+}
+
+// VerifRangeIterator wraps the unexported rangeIterator.
+type VerifRangeIterator struct {
+	it *rangeIterator
+}
+
+func VerifNewRangeIterator(n int64) (*VerifRangeIterator, error) {
+	it, err := newRangeIterator(n)
+	if err != nil {
+		return nil, err
+	}
+	return &VerifRangeIterator{it}, nil
+}
+
+func (v *VerifRangeIterator) Next() bool       { return v.it.Next() }
+func (v *VerifRangeIterator) Int() *big.Int    { return v.it.Int() }
+func (v *VerifRangeIterator) P() *big.Int      { return v.it.P }
+func (v *VerifRangeIterator) G() *big.Int      { return v.it.G }
+func (v *VerifRangeIterator) StartI() *big.Int { return v.it.startI }
+
+func VerifErrRangeSize() error { return errRangeSize }
+
+func VerifMergeErrChan(ctx context.Context, channels ...<-chan error) <-chan error {
+	return mergeErrChan(ctx, channels...)
+}
+
+func VerifValidatePorts(ports []*PortRange) error { return validatePorts(ports) }
